@@ -28,6 +28,7 @@ struct A2(float x, string s, int[] v,)
 struct A3(string x, string s, int[] v,)
 struct C(A a, A[] sa, map<A> ma, B b, txt f,)
 struct D(B a, B[] sa, map<B> ma,)
+struct P(string s, txt f, float w, bool b,)
 `
 
 type structDef struct {
@@ -42,9 +43,11 @@ var structs = map[string][][2]string{
 	"A3": {{"x", "string"}, {"s", "string"}, {"v", "int[]"}},
 	"C":  {{"a", "A"}, {"sa", "A[]"}, {"ma", "map<A>"}, {"b", "B"}, {"f", "txt"}},
 	"D":  {{"a", "B"}, {"sa", "B[]"}, {"ma", "map<B>"}},
+	// no member that filtering could rewrite (no int, no nested struct)
+	"P": {{"s", "string"}, {"f", "txt"}, {"w", "float"}, {"b", "bool"}},
 }
 
-var bases = []string{"int", "float", "string", "bool", "map", "file", "path", "txt", "B", "A", "A2", "A3", "C", "D"}
+var bases = []string{"int", "float", "string", "bool", "map", "file", "path", "txt", "B", "A", "A2", "A3", "C", "D", "P"}
 
 type tid = syntax.TypeId
 
@@ -364,6 +367,12 @@ func mutate(v *progen.Val) []*progen.Val {
 				ms := cur.Clone()
 				delete(ms.O, k)
 				out = append(out, replace(p, ms))
+				// a misspelt key: one field missing and one undeclared,
+				// the number of keys unchanged
+				rn := cur.Clone()
+				rn.O[k+"_"] = rn.O[k]
+				delete(rn.O, k)
+				out = append(out, replace(p, rn))
 				walk(cur.O[k], append(append(path{}, p...), k))
 			}
 		}
@@ -649,7 +658,7 @@ func main() {
 		}
 	}
 	r.Set("types", len(types))
-	r.Rule = "types: 14 base types (builtins, a user file type, 6 structs incl. narrower / field-wise convertible / nested) x array depth 0-2 x typed-map nesting 0-2; " +
+	r.Rule = "types: 15 base types (builtins, a user file type, 7 structs incl. narrower / field-wise convertible / nested / without any member filtering could rewrite) x array depth 0-2 x typed-map nesting 0-2; " +
 		"values: for each type a generated set of valid values (typical, alternate, empty, nulls) and EVERY single-point near-miss mutation of each (wrong kind at every node, 1.0/1.5 for numbers, one level deeper, extra/missing field), " +
 		"each in compact and oddly spaced raw JSON; checked against a three-valued reference validator and a reference filter (idempotence, faithfulness, validity after filtering for every assignable type pair), " +
 		"plus reflexivity and component-wise assignability over all ordered type pairs. distinct = distinct (type, raw value); non-trivial = value is not null"
